@@ -59,9 +59,13 @@ static void vm_spin(void) {
   vm_parked[vm_tid] = 2; vm_dead = 1;
 }
 static void vm_progress(void) {
+  /* an operation completed.  After the confirm stage a thread must not resume (others relied on it being stuck).
+     The spin budget is per thread, not per operation, unless the harness asks for VM_SPIN_RESET. */
   if (vm_stage == 2) __CPROVER_assume(0);
+#ifdef VM_SPIN_RESET
   if (vm_stage == 1) { vm_stage = 0; vm_eg[vm_tid] = 0; }
   vm_spins = 0;
+#endif
 }
 static void vm_thread_begin(int t) { vm_tid = t; vm_kt = (t - 1) % VM_NKT; vm_dead = 0; vm_spins = 0; vm_stage = 0; }
 static void vm_thread_end(int t) {
